@@ -982,6 +982,11 @@ func (s *ScopedKeyManager) Address(ns walletdb.ReadBucket,
 func (s *ScopedKeyManager) AddrAccount(ns walletdb.ReadBucket,
 	address btcutil.Address) (uint32, error) {
 
+	// Addresses are stored under their pubkey hash, see Address.
+	if pka, ok := address.(*btcutil.AddressPubKey); ok {
+		address = pka.AddressPubKeyHash()
+	}
+
 	account, err := fetchAddrAccount(ns, &s.scope, address.ScriptAddress())
 	if err != nil {
 		return 0, maybeConvertDbError(err)
@@ -2401,6 +2406,11 @@ func (s *ScopedKeyManager) fetchUsed(ns walletdb.ReadBucket,
 // MarkUsed updates the used flag for the provided address.
 func (s *ScopedKeyManager) MarkUsed(ns walletdb.ReadWriteBucket,
 	address btcutil.Address) error {
+
+	// Addresses are stored under their pubkey hash, see Address.
+	if pka, ok := address.(*btcutil.AddressPubKey); ok {
+		address = pka.AddressPubKeyHash()
+	}
 
 	addressID := address.ScriptAddress()
 	err := markAddressUsed(ns, &s.scope, addressID)
